@@ -30,7 +30,7 @@ pub static PROP: Prop = Prop {
 
 fn budget(t: Tier) -> Budget {
     Budget {
-        cases: t.pick(8_000, 100_000),
+        cases: t.pick(40_000, 300_000),
         max_len: 16,
         shards: 16,
         dual_profile: false,
